@@ -31,6 +31,10 @@ def compare(op, impl, model, rep):
     a, b = _norm(impl), _norm(model)
     if a == b:
         return None
+    if op.get("c", "").endswith(".accept"):
+        if b.get("panic"):
+            return "the model's Accept parser panics on this header"
+        return "the framing of the answer (SSE stream or JSON body) is not what the model's Accept parser chooses for this header"
     if a.get("panic") != b.get("panic"):
         if a.get("panic"):
             return "VIOLATES: the server panicked on an input for which the model (theorem C06_no_panic) has no panic"
